@@ -184,25 +184,23 @@ FILES_FROM_OK = ("read_to_string", "with_context", "context", "branch", "deref",
 
 def c16l(prog, rep):
     """C16.l — "files mode leaves the file holding what stdin mode prints", for every file the user names: a path listed with
-    `--files-from` is a line of the list, taken as written.  In get_paths the text of the list reaches the path list through
-    `str::lines` (the documented separator), element-preserving adapters and text-preserving conversions only: a cut at any
-    whitespace, a trim or a filter turns `my units/unit1.pas` into other paths, and the named file is neither formatted nor checked."""
+    `--files-from` is a line of the list, taken as written.  From the read of the list to the path list that get_paths returns, the
+    text passes through `str::lines` (the documented separator), element-preserving adapters and text-preserving conversions only —
+    in get_paths itself or in a helper it calls: a cut at any whitespace, a trim or a filter turns `my units/unit1.pas` into other
+    paths, and the named file is neither formatted nor checked."""
     R = "C16.l"
+    from util import family_bodies
     cands = [b for n, b in prog.bodies.items() if n.endswith("FormatterConfiguration>::get_paths") and b.crate.startswith("pasfmt_orchestrator")]
     if not rep.check(len(cands) == 1, R, "anchor:get_paths", "the FormatterConfiguration::get_paths implementation of PasFmtConfiguration not found"):
         return
-    b = cands[0]
-    fam = [b] + list(prog.closures_of(b.npath))
-    reads = [c for x in fam for c in x.calls() if (c.callee or "") in ("std::fs::read_to_string", "std::fs::read")]
-    if not rep.check(len(reads) == 1 and reads[0].body is b, R, "anchor:files-from-read", "get_paths no longer reads the --files-from list with one read_to_string call"):
+    gp = cands[0]
+    fam = family_bodies(prog, gp)
+    readers = [(b, c) for b, _a, _ch in fam for c in b.calls() if (c.callee or "") in ("std::fs::read_to_string", "std::fs::read")]
+    if not rep.check(len(readers) == 1, R, "anchor:files-from-read", "the --files-from list is not read with exactly one read_to_string call in get_paths or a helper of it (found %d)" % len(readers)):
         return
-    # every use of the text: the call chains whose canonical argument text mentions the read
-    sinks = [c for c in b.calls() if (c.callee or "").split("::")[-1] in ("extend", "push", "append", "extend_from_slice", "insert") and any("read_to_string(" in canon(b, a) for a in c.args)]
-    if not rep.check(len(sinks) >= 1, R, "anchor:files-from-sink", "the text of the --files-from list does not reach the path list through extend / push in get_paths"):
-        return
-    bad = []
-    for snk in sinks:
-        text = [canon(b, a) for a in snk.args if "read_to_string(" in canon(b, a)][0]
+    rb, rc = readers[0]
+
+    def flat_names(text):
         flat, depth = "", 0
         for ch in text:
             if ch == "{":
@@ -211,26 +209,67 @@ def c16l(prog, rep):
                 depth -= 1
             elif depth == 0:
                 flat += ch
-        fns = set(re.findall(r"([A-Za-z_][A-Za-z_0-9]*)\(", flat)) | set(re.findall(r"fn:([A-Za-z_][A-Za-z_0-9]*)", flat))
-        other = sorted(f for f in fns if f not in FILES_FROM_OK)
-        if other or "lines(" not in flat:
-            bad.append((other, flat[:120]))
-        # closures handed to the adapters keep the text too
+        return flat, set(re.findall(r"([A-Za-z_][A-Za-z_0-9]*)\(", flat)) | set(re.findall(r"fn:([A-Za-z_][A-Za-z_0-9]*)", flat))
+
+    def texts_with(b, needle):
+        """canonical texts in b through which the list's text leaves: the return value and the arguments of appending calls"""
+        out = []
+        # every value assigned to the return slot (the Ok(..) / Cow::Owned(..) around the list is looked through)
+        for bb, i, st in b.stmts():
+            if st["k"] == "assign" and st["dst"]["l"] == 0:
+                rv = st["rv"]
+                ops = rv.get("ops") if rv["k"] == "aggregate" else ([rv["op"]] if rv["k"] in ("use", "cast") else [])
+                for op in ops or []:
+                    t = canon(b, op)
+                    if needle in t:
+                        out.append(("return", t))
         for c in b.calls():
-            if c.bb == snk.bb:
-                continue
-            for a in c.args[1:]:
-                if a["k"] in ("copy", "move") and not a["place"]["p"]:
-                    clos = b.locals[a["place"]["l"]].get("closure")
-                    cb = prog.body(norm(clos)) if clos else None
-                    if cb is not None and (c.callee or "").split("::")[-1] in ("map", "filter", "filter_map", "flat_map"):
-                        cf = {(k.callee or "").split("::")[-1] for k in cb.calls()}
-                        o2 = sorted(f for f in cf if f not in FILES_FROM_OK)
-                        if o2:
-                            bad.append((o2, "closure of " + (c.callee or "").split("::")[-1]))
+            if c.t["dst"]["l"] == 0 and not c.t["dst"]["p"]:
+                t = "%s(%s)" % ((c.callee or "?").split("::")[-1], ",".join(canon(b, a) for a in c.args))
+                if needle in t and not (t.startswith("from_residual(") and "@Break.0" in t):        # (the error of the read, propagated by `?`)
+                    out.append(("return", t))
+        for c in b.calls():
+            if (c.callee or "").split("::")[-1] in ("extend", "push", "append", "extend_from_slice", "insert"):
+                for a in c.args:
+                    t = canon(b, a)
+                    if needle in t:
+                        out.append((c.callee.split("::")[-1], t))
+        return out
+    bad = []
+    steps = []
+    # in the body that reads the list
+    tx = texts_with(rb, "read_to_string(")
+    if not tx:
+        bad.append(("the text read from the list does not leave %s" % short(rb.npath), ""))
+    for how, t in tx:
+        flat, fns = flat_names(t)
+        other = sorted(f for f in fns if f not in FILES_FROM_OK)
+        steps.append(flat[:100])
+        if other or "lines(" not in flat:
+            bad.append((other or ["not cut by lines()"], flat[:120]))
+    # in get_paths, when the read happens in a helper: what is done with the helper's result
+    if rb is not gp:
+        helper = rb.npath.split("::")[-1]
+        tx2 = texts_with(gp, helper + "(")
+        if not tx2:
+            bad.append(("the result of %s does not reach the path list" % helper, ""))
+        for how, t in tx2:
+            flat, fns = flat_names(t)
+            other = sorted(f for f in fns if f not in FILES_FROM_OK + (helper, "chain", "Owned", "extend"))
+            steps.append(flat[:100])
+            if other:
+                bad.append((other, flat[:120]))
+    # closures handed to the adapters keep the text too
+    for b, _a, _ch in fam:
+        if b.kind == "Closure" and any(k in b.npath for k in (rb.npath, gp.npath)):
+            cf = {(k.callee or "").split("::")[-1] for k in b.calls()} - {"display", "format", "must_use", "new_display", "new_const", "new"}
+            is_ctx = any("Arguments" in (k.callee or "") or "fmt" in (k.callee or "") for k in b.calls())
+            o2 = sorted(f for f in cf if f not in FILES_FROM_OK)
+            if o2 and not is_ctx:
+                bad.append((o2, "closure %s" % short(b.npath)))
     rep.check(not bad, R, "listed-path=line-as-written",
               "a path of the --files-from list is not a line of the list as written: %s — paths that contain blanks (or whatever the extra step cuts or removes) name other files, and the "
-              "listed file is neither formatted nor checked" % bad[:2], where=sinks[0].where(), instance={"sinks": len(sinks), "deviations": [str(x) for x in bad[:3]]})
+              "listed file is neither formatted nor checked" % bad[:2], where=rc.where(), instance={"steps": steps, "deviations": [str(x) for x in bad[:3]]})
 
 
 def c16j(prog, rep):
@@ -963,62 +1002,67 @@ def c17c(prog, rep):
     e = prog.body(FF + "encode")
     if not rep.check(e is not None, R, "anchor:encode", "encode not found"):
         return
-    from panic import dominating_conditions
-    pairs = {"encoding_rs::UTF_16BE": (FF + "encode_utf16be", "core::num::to_be_bytes"), "encoding_rs::UTF_16LE": (FF + "encode_utf16le", "core::num::to_le_bytes")}
-    for st, (fn, conv) in pairs.items():
-        cs = e.calls_to(fn)
-        ok = False
-        if len(cs) == 1:
-            for c in dominating_conditions(e, cs[0].bb):
-                if c[0] == "call" and c[1].endswith("eq") and c[3] is True:
-                    oo = [Origins(e).of_operand(a) for a in c[2]]
-                    flat = set().union(*oo)
-                    if any(x[0] == "const" and x[1] == "static" and norm(x[2]) == st for x in flat) and any(x[0] == "param" and x[1] == 1 for x in flat):
-                        ok = True
-        rep.check(ok, R, "utf16-arm:%s" % st.split("::")[-1], "%s is not selected exactly under `encoding == %s`" % (short(fn), st), instance={"static": st, "encoder": short(fn)})
-        fb = prog.body(fn)
-        good = False
-        if fb is not None:
-            for c in fb.calls_to(FF + "encode_utf16"):
-                a = c.args[1]
-                if a["k"] == "const" and norm(a.get("fn", "")) == conv:
-                    good = True
-        rep.check(good, R, "utf16-bytes:%s" % st.split("::")[-1], "%s does not use %s" % (short(fn), conv), instance={"encoder": short(fn), "byte_order_fn": conv})
-    # the library encoder is used only when it can encode (output_encoding() == encoding); fall-through is Err(Unsupported)
-    le = e.calls_to("encoding_rs::Encoding::encode")
-    ok = False
-    if len(le) == 1:
-        for c in dominating_conditions(e, le[0].bb):
-            if c[0] == "call" and ((c[1].endswith("::eq") and c[3] is True) or (c[1].endswith("::ne") and c[3] is False)):
-                names = set()
-                for a in c[2]:
-                    for x in Origins(e).of_operand(a):
-                        if x[0] == "call":
-                            names.add(x[2])
-                if "encoding_rs::Encoding::output_encoding" in names:
-                    ok = True
-    rep.check(ok, R, "library-encoder-guard", "Encoding::encode is not guarded by `encoding.output_encoding() == encoding`")
-    unsup = False
-    for bb, i, s in e.stmts():
-        if s["k"] == "assign" and s["rv"]["k"] == "aggregate" and s["rv"].get("variant") == "Unsupported":
-            unsup = True
-    rep.check(unsup, R, "fallthrough-unsupported", "encode() no longer ends in Err(Unsupported) for encodings it cannot produce")
-    # whatever encode() returns as Ok was produced by an encoder: the library's for this encoding, or one of the two UTF-16 ones —
-    # never the text's own (UTF-8) bytes or anything else (a shortcut for "ASCII only" text is wrong for UTF-16)
-    okp = set()
-    for bb, i, s2 in e.stmts():
-        if s2["k"] == "assign" and s2["rv"]["k"] == "aggregate" and s2["rv"].get("variant") == "Ok" and norm(s2["rv"].get("adt", "")).endswith("result::Result"):
-            for x in Origins(e).of_operand(s2["rv"]["ops"][0]):
-                if x[0] == "agg" and str(x[3]).endswith("Cow::Owned"):
-                    st = e.blocks[x[1]]["stmts"][x[2]]
-                    okp |= {y for y in Origins(e).of_operand(st["rv"]["ops"][0])}
-                else:
-                    okp.add(x)
-    names = sorted({x[2].split("::")[-1] if x[0] == "call" else x[0] for x in okp})
-    allowed = {"encoding_rs::Encoding::encode", FF + "encode_utf16be", FF + "encode_utf16le"}
-    rep.check(bool(okp) and all(x[0] == "call" and x[2] in allowed for x in okp), R, "ok-payload-is-an-encoder's-output",
-              "encode() can return Ok bytes that were not produced by the encoder of the file's encoding (origins: %s) — e.g. the text's UTF-8 bytes handed out unchanged" % names,
-              where="%s:%d" % (e.file, e.line), instance={"ok_payload_origins": names})
+    # The decision table of encode(encoding, data), with its helpers expanded (the hand-written encoder `encode_utf16(data, to_xx_bytes)` kept
+    # as an atom): every path is decided by `encoding == UTF_16BE`, `encoding == UTF_16LE` and `encoding.output_encoding() == encoding`
+    # (and by whether the library encoder reported an unmappable character), and
+    #   UTF_16BE -> Ok(encode_utf16(data, u16::to_be_bytes))      UTF_16LE -> Ok(encode_utf16(data, u16::to_le_bytes))
+    #   neither, output_encoding() == encoding -> what the library encoder of that encoding returns, Err if it had to replace something
+    #   otherwise -> Err(Unsupported)
+    # however the selection is written (an if / else-if chain, wrappers, a selector function returning the byte-order function).
+    try:
+        te = Table(prog, e, inline=2, opaque=("encode_utf16",))
+    except TooComplex as ex:
+        rep.fail(R, "encode:table", "encode() is not a loop-free decision over the encoding any more: %s" % ex)
+        return
+    bad = []
+    seen = {"UTF_16BE": 0, "UTF_16LE": 0, "library": 0, "unsupported": 0}
+    for cons, res in te.rows:
+        r = render(res)
+        conds = {}
+        foreign = []
+        for c in cons:
+            if c[0] != "cond":
+                foreign.append(str(c[1])[:60])
+                continue
+            key, val = str(c[1]), (c[2] != 0)
+            m = re.match(r"^eq\((arg1,static:encoding_rs::(UTF_16[BL]E)|static:encoding_rs::(UTF_16[BL]E),arg1)\)$", key)
+            if m:
+                conds[m.group(2) or m.group(3)] = val
+            elif key in ("eq(output_encoding(arg1),arg1)", "eq(arg1,output_encoding(arg1))"):
+                conds["out"] = val
+            elif re.match(r"^ne\(", key) and "output_encoding(arg1)" in key:
+                conds["out"] = not val
+            elif key.startswith("encode(arg1,arg2)"):
+                conds["replaced"] = val
+            else:
+                foreign.append(key[:60])
+        if foreign:
+            bad.append("a path of encode() is decided by %s" % foreign[:2])
+            continue
+        if conds.get("UTF_16BE"):
+            seen["UTF_16BE"] += 1
+            if r != "Ok(Owned(call:encode_utf16(arg2,fn:core::num::to_be_bytes)))":
+                bad.append("for UTF-16BE encode() returns %s" % r[:80])
+        elif conds.get("UTF_16LE"):
+            seen["UTF_16LE"] += 1
+            if r != "Ok(Owned(call:encode_utf16(arg2,fn:core::num::to_le_bytes)))":
+                bad.append("for UTF-16LE encode() returns %s" % r[:80])
+        elif r.startswith("Ok("):
+            seen["library"] += 1
+            if not (conds.get("out") is True and conds.get("replaced") is False and r == "Ok(place:encode(arg1,arg2).0)"):      # (`output_encoding() == encoding` never holds for UTF-16: encoding_rs' documented contract)
+                bad.append("encode() returns %s under %s — Ok bytes that are not the output of the encoder of the file's encoding (e.g. the text's UTF-8 bytes handed out unchanged)" % (r[:60], conds))
+        else:
+            if "Unsupported" in r:
+                seen["unsupported"] += 1
+                if conds.get("out") is not False:
+                    bad.append("Err(Unsupported) is returned although the library can encode")
+            elif not (conds.get("replaced") is True and "InvalidData" in r):
+                bad.append("encode() fails with %s under %s" % (r[:60], conds))
+    complete = all(v >= 1 for v in seen.values())
+    rep.check(not bad and complete, R, "encode:decision-table",
+              "encode() deviates from `UTF-16BE / UTF-16LE -> the hand-written encoder with that byte order; an encoding the library can encode -> the library's encoder, Err on a replacement; "
+              "anything else -> Err(Unsupported)`: %s%s" % (bad[:3], "" if complete else "; arms seen: %s" % seen), where="%s:%d" % (e.file, e.line),
+              instance={"paths": len(te.rows), "arms": seen, "ok_payload_origins": ["encode_utf16(to_be_bytes)", "encode_utf16(to_le_bytes)", "Encoding::encode"]})
 
 
 LOSSY_OR_CUTTING = ("convert_utf8_to_utf16", "convert_utf8_to_utf16_without_replacement", "from_utf8_lossy", "convert_str_to_utf16", "chunks", "chunks_exact", "rchunks", "windows",
